@@ -362,7 +362,7 @@ func UniverseSources(seed int64) []*Program {
 		}
 	}
 	t.render(&sb, "", id)
-	locName := []string{"u", "top.level", "a/b.cdc", "U0"}[int(seed%4+4)%4]
+	locName := []string{"u", "top_level", "a/b", "U0"}[int(seed%4+4)%4]
 	p3 := &Program{Location: common.StringLocation(locName), Name: locName, Source: sb.String()}
 
 	return []*Program{p0, p1, p2, p3}
